@@ -347,7 +347,7 @@ def build_link_doc(inp) -> dict:
             {"name": "q", "in": "query", "required": True, "schema": {"type": "string", "enum": ["generated-q"]}},
             {"name": "X-Src", "in": "header", "required": True, "schema": {"type": "string", "enum": ["generated-h"]}},
         ],
-        "requestBody": {"required": True, "content": {"application/json": {"schema": {"type": "object", "properties": {"g": {"type": "string", "enum": ["generated-body"]}}, "required": ["g"], "additionalProperties": False}}}},
+        "requestBody": {"required": True, "content": {"application/json": {"schema": {"type": "object", "properties": {"g": {"type": "string", "enum": ["generated-body"]}, "deep": {"type": "object", "properties": {"gen": {"type": "string", "enum": ["generated-deep"]}}, "required": ["gen"], "additionalProperties": False}}, "required": ["g", "deep"], "additionalProperties": False}}}},
         "responses": {"200": {"description": "ok"}},
     }}
     return {"openapi": "3.0.2", "info": {"title": "t", "version": "1"}, "paths": paths}
